@@ -60,7 +60,7 @@ class Table(dict):
             df[k] = df[ic]
             iic.append(k)
         df.set_index(iic, inplace=True)
-        df.sort_index(inplace=True)
+        df.sort_index(inplace=True, kind='stable')
         df.drop_duplicates(inplace=True)
         return df
 
@@ -97,6 +97,8 @@ class Table(dict):
             return
         if self.has_index():
             buffer_df = pd.DataFrame(self.buffer, columns=self.columns)
+            # several buffered rows may carry the same key: the last one inserted wins
+            buffer_df = buffer_df.drop_duplicates(subset=self.idx_cols, keep='last')
             buffer_df = self._create_index_from_cols(buffer_df, self.idx_cols)
 
             # Update existing rows and append new rows
